@@ -41,6 +41,7 @@ type HistorySetup struct {
 	ModSvcPricing string    `json:"modsvc_pricing,omitempty"`
 	StateCbKill   bool      `json:"state_callback_kills,omitempty"`
 	StartHeight   int64     `json:"start_height,omitempty"`
+	ViaApp        bool      `json:"end_block_via_module_manager,omitempty"`
 }
 
 type History struct {
@@ -205,6 +206,11 @@ func (r *Run) InstallModuleService(pricing string) {
 	r.hist.Setup.ModSvcPricing = pricing
 }
 
+func (r *Run) SetViaApp(v bool) {
+	r.w.viaApp = v
+	r.hist.Setup.ViaApp = v
+}
+
 func (r *Run) SetStateCbKill(v bool) {
 	r.w.stateCbKill = v
 	r.hist.Setup.StateCbKill = v
@@ -302,6 +308,7 @@ func Replay(a *App, h *History, mon *Mon) *Run {
 		r.InstallModuleService(h.Setup.ModSvcPricing)
 	}
 	r.SetStateCbKill(h.Setup.StateCbKill)
+	r.SetViaApp(h.Setup.ViaApp)
 	r.Begin()
 	for _, st := range h.Steps {
 		switch st.Kind {
